@@ -126,7 +126,34 @@ def giveBack (P : Params) (a : Algo) (m : Meta) (p : Peer) (give : Nat) : Meta :
     if p ∈ m.sent then ⟨m.sent.erase p, m.remaining + credit⟩ else m
   else ⟨m.sent.erase p, m.remaining + credit⟩
 
-/-- Micro-steps of `ReportFailure` as far as the mutex and the map are concerned. -/
+/-- The metadata `SenderForBundle` writes back (its other result, the chosen senders, does not matter
+for the bookkeeping). -/
+def pickMeta (a : Algo) (cs : List Peer) (m : Meta) : Meta :=
+  if m.remaining < 2 then m
+  else match a with
+    | .spray => (sprayPick cs m).2
+    | .binary =>
+      match binaryPick cs m with
+      | none => m
+      | some (_, _, m') => m'
+
+/-- A read-modify-write of a bundle's metadata, performed by one goroutine. -/
+inductive Action where
+  | giveBack (p : Peer) (give : Nat)   -- `ReportFailure` for peer `p`
+  | pick (cs : List Peer)              -- `SenderForBundle`, the manager listing the senders `cs`
+deriving Repr, DecidableEq
+
+def Action.apply (P : Params) (a : Algo) (m : Meta) : Action → Meta
+  | .giveBack p g => Dtn7.Spray.giveBack P a m p g
+  | .pick cs => pickMeta a cs m
+
+def Action.ofReport (f : Peer × Nat) : Action := .giveBack f.1 f.2
+
+def Action.report? : Action → Option (Peer × Nat)
+  | .giveBack p g => some (p, g)
+  | .pick _ => none
+
+/-- Micro-steps of `ReportFailure` / `SenderForBundle` as far as the mutex and the map are concerned. -/
 inductive Op where
   | rlock | runlock | lock | unlock
   | read    -- `metadata, ok := bundleData[bp.Id]`
@@ -137,26 +164,26 @@ def Op.name : Op → String
   | .rlock => "rlock" | .runlock => "runlock" | .lock => "lock" | .unlock => "unlock"
   | .read => "read" | .write => "write"
 
-/-- The order in which `ReportFailure` takes the locks and touches the map. -/
+/-- The order in which `ReportFailure` and `SenderForBundle` take the locks and touch the map
+(`false`: the code before the repairs, copy out under `RLock`, write back under `Lock`). -/
 def rfProgram (atomicRF : Bool) : List Op :=
   if atomicRF then [.lock, .read, .write, .unlock]
   else [.rlock, .read, .runlock, .lock, .write, .unlock]
 
-/-- One `ReportFailure` call in flight (one goroutine of `forward`). -/
+/-- One call in flight (one goroutine). -/
 structure Thread where
-  peer : Peer
-  give : Nat
+  act : Action
   pc : Nat := 0
   loc : Option Meta := none   -- the copy made by `read`
 deriving Repr, DecidableEq
 
 /-- The algorithm's shared state for the bundle, its `sync.RWMutex`, and (ghost) the write-backs in
-the order they happened. -/
+the order they happened, each with the copy of the metadata it was computed from. -/
 structure Shared where
   md : Option Meta
   readers : Nat := 0
   writer : Option Nat := none   -- index of the thread holding the write lock
-  order : List (Peer × Nat) := []
+  order : List (Action × Meta) := []
 deriving Repr, DecidableEq
 
 /-- Execute `op` for thread `i`; `none` = blocked. -/
@@ -173,8 +200,7 @@ def exec (P : Params) (a : Algo) (i : Nat) (op : Op) (sh : Shared) (t : Thread) 
     match t.loc with
     | none => some (sh, t)
     | some m =>
-      some ({ sh with md := some (giveBack P a m t.peer t.give),
-                      order := sh.order ++ [(t.peer, t.give)] }, t)
+      some ({ sh with md := some (t.act.apply P a m), order := sh.order ++ [(t.act, m)] }, t)
 
 abbrev SState := Shared × List Thread
 
@@ -195,15 +221,38 @@ Every interleaving of the goroutines is such a list. -/
 def runSched (P : Params) (a : Algo) (prog : List Op) (st : SState) (σ : List Nat) : SState :=
   σ.foldl (stepThread P a prog) st
 
-def initThreads (fs : List (Peer × Nat)) : List Thread := fs.map (fun f => { peer := f.1, give := f.2 })
+def initThreads (acts : List Action) : List Thread := acts.map (fun act => { act := act })
 
 /-- All goroutines have returned (`wg.Wait()` is over). -/
 def allDone (prog : List Op) (ts : List Thread) : Bool := ts.all (fun t => t.pc == prog.length)
 
+/-- Concurrent `SenderForBundle` / `ReportFailure` calls for one bundle under schedule `σ`. -/
+def concurrentUpdates (P : Params) (a : Algo) (md : Option Meta) (acts : List Action)
+    (σ : List Nat) : SState :=
+  runSched P a (rfProgram P.atomicRF) ({ md := md }, initThreads acts) σ
+
+/-- Reference semantics: the updates one after the other. -/
+def applyAll (P : Params) (a : Algo) (md : Option Meta) (acts : List Action) : Option Meta :=
+  acts.foldl (fun m act => m.map (fun m => act.apply P a m)) md
+
+/-- `Chained md l`: the updates `l` form a sequential execution from `md` — every update was computed
+from the state its predecessor left behind (so what the call returned, e.g. the senders chosen by
+`SenderForBundle`, is what it returns in that sequential execution). -/
+def Chained (P : Params) (a : Algo) : Option Meta → List (Action × Meta) → Prop
+  | _, [] => True
+  | md, (act, m) :: rest => md = some m ∧ Chained P a (some (act.apply P a m)) rest
+
+instance Chained.decidable (P : Params) (a : Algo) :
+    (md : Option Meta) → (l : List (Action × Meta)) → Decidable (Chained P a md l)
+  | _, [] => isTrue trivial
+  | md, (act, m) :: rest =>
+    have := Chained.decidable P a (some (act.apply P a m)) rest
+    inferInstanceAs (Decidable (md = some m ∧ Chained P a (some (act.apply P a m)) rest))
+
 /-- The concurrent `ReportFailure` calls of one `forward` run under schedule `σ`. -/
 def reportFailures (P : Params) (a : Algo) (md : Option Meta) (fs : List (Peer × Nat))
     (σ : List Nat) : SState :=
-  runSched P a (rfProgram P.atomicRF) ({ md := md }, initThreads fs) σ
+  concurrentUpdates P a md (fs.map Action.ofReport) σ
 
 /-- Reference semantics: the reports one after the other. -/
 def giveBackAll (P : Params) (a : Algo) (md : Option Meta) (fs : List (Peer × Nat)) : Option Meta :=
